@@ -119,7 +119,12 @@ def m_subtags(c, binp, tier, light=False):
     c.add_model(run_model("%s-sub-cldr-words" % c.prop, "MC_SubCldr", {}, ["WordsAreSubtags", "CanonFix", "EmitCase"], binp=binp, workers=4))
 
 
-def m_object(c, binp, tier, edges=True, hist=True, full=True, parts=("U", "T", "X", "Id")):
+def m_object(c, binp, tier, edges=True, hist=True, full=True, parts=("U", "T", "X", "Id"), grown=False):
+    if grown:
+        # every transition of each container grown to 5..7 members (valid arguments only)
+        for part in ("GU", "GK", "GT", "GX"):
+            c.add_model(run_model("%s-obj-edges-%s" % (c.prop, part), "MC_Object", dict(Part=part, Mode="edges", K=0, Start="default"),
+                                  OBJ_INV, binp=binp, workers=10, expect_cases="transitions"))
     if edges:
         for part in parts:
             for start in (("default", "parsed") if tier == "thorough" or part != "U" else ("default",)):
@@ -325,7 +330,7 @@ def C04(tier, seed):
     m_locale(c, binp, tier, modes=("loc",))
     m_langid(c, binp, tier, light=True)
     m_parts(c, binp, tier)
-    m_object(c, binp, tier, edges=True, hist=False, full=True, parts=("T", "X", "Id"))
+    m_object(c, binp, tier, edges=True, hist=False, full=True, parts=("T", "X", "Id"), grown=True)
     traces(c, binp, "parse", tier)
     traces(c, binp, "hist", tier, quick_n=2000)
     return c.finish(rule="to_string()/canonicalize() of every value reached by parsing, from_parts and every edge of the mutator machines compared byte for byte with SerLoc of the model value; the spec's canonical text is itself checked to be a strict fixpoint and never longer than the input; trace events re-judge every printed text with the strict recogniser",
@@ -339,7 +344,7 @@ def C05(tier, seed):
     m_langid(c, binp, tier, light=True)
     m_subtags(c, binp, tier, light=True)
     m_parts(c, binp, tier)
-    m_object(c, binp, tier, edges=True, hist=True, full=True, parts=("U", "T", "X", "Id"))
+    m_object(c, binp, tier, edges=True, hist=True, full=True, parts=("U", "T", "X", "Id"), grown=True)
     traces(c, binp, "hist", tier, quick_n=2000)
     traces(c, binp, "parse", tier, quick_n=1500)
     return c.finish(rule="every reached value (parsed, from_parts, after every mutation edge/history) is printed and re-parsed by the real code (Locale, ExtensionsMap, LanguageIdentifier, the four subtags) and must come back equal; on the spec, ParseLoc(SerLoc(v)) = v is an invariant of every model and 'reparse' is a no-op action in every reachable state",
@@ -395,7 +400,7 @@ def C09(tier, seed):
 def C10(tier, seed):
     c = Check("C10", tier, seed)
     binp = build_harness(ALL)
-    m_object(c, binp, tier, edges=True, hist=True, full=True)
+    m_object(c, binp, tier, edges=True, hist=True, full=True, grown=True)
     m_object_likely(c, binp, tier, k_quick=4)
     c.require(["op_" + o for o in ["set_language", "clear_language", "set_script", "clear_script", "set_region", "clear_region",
                "set_variants", "clear_variants", "has_variant", "set_keyword", "remove_keyword", "clear_keywords", "keyword",
